@@ -356,10 +356,12 @@ impl<F: Field> Circuit<F> {
                     // avoid double-creation.  This happens in e.g. BoolCheck where a = c = out.
                     let a_defined = (a.0 as usize) < defined.len() && defined[a.0 as usize];
                     let a_aliased_by_out = !out_already_defined && a.0 == out.0;
-                    let a_state: F = if a_defined {
+                    // When `out` creates the slot in this row, an aliased `a` reads it: the
+                    // operand column must stay tied to the slot's value (BoolCheck has
+                    // `a = c = out`, and its constraint is on the `a` column).
+                    let a_state: F = if a_defined || a_aliased_by_out {
                         F::ONE // reader
-                    } else if (private_input_wids.contains(&a.0) || hint_output_wids.contains(&a.0))
-                        && !a_aliased_by_out
+                    } else if private_input_wids.contains(&a.0) || hint_output_wids.contains(&a.0)
                     {
                         F::TWO // creator (private input or hint output)
                     } else {
@@ -378,11 +380,10 @@ impl<F: Field> Circuit<F> {
                         let c_defined = (w.0 as usize) < defined.len() && defined[w.0 as usize]
                             || a_creates && w.0 == a.0;
                         let c_aliased_by_out = !out_already_defined && w.0 == out.0;
-                        let c_state = if c_defined {
+                        let c_state = if c_defined || c_aliased_by_out {
                             F::ONE // reader
-                        } else if (private_input_wids.contains(&w.0)
-                            || hint_output_wids.contains(&w.0))
-                            && !c_aliased_by_out
+                        } else if private_input_wids.contains(&w.0)
+                            || hint_output_wids.contains(&w.0)
                         {
                             F::TWO // creator (private input or hint output)
                         } else {
@@ -393,8 +394,9 @@ impl<F: Field> Circuit<F> {
 
                     // b and out creator flags (now independent).
                     // Private inputs can be b-creators even in the forward case.
-                    let b_created_in_row =
-                        a_creates && b.0 == a.0 || c_state == F::TWO && b.0 == c_wid.0;
+                    let b_created_in_row = a_creates && b.0 == a.0
+                        || c_state == F::TWO && b.0 == c_wid.0
+                        || !out_already_defined && b.0 == out.0;
                     let b_already_defined = b_already_defined || b_created_in_row;
                     let b_is_private_creator =
                         !b_already_defined && private_input_wids.contains(&b.0);
